@@ -15,6 +15,8 @@
  *                                         events and run the registered callback with what poll() reports
  *   SForce <revents>                      run the connection's dispatch callback with the given revents (1=IN 4=OUT)
  *   SResp <len> | SRespv <len> | SEvent <len> | SEventv <len> | SRate <0..4>
+ *   StallHold <n>                         from now on a client send whose notification byte is refused sees n more refusals
+ *                                         before the server gets to run (a server busy in a callback); no event
  *   Cb <ret> [op ; op ...]                script for the next msg_process invocation without one (FIFO):
  *                                         ops run inside the callback (server calls, or client calls standing for
  *                                         the concurrently running client process), then the callback returns <ret>
@@ -110,6 +112,7 @@ static void vt_obs_end(void);
 
 /* a top-level qb_ipcc_send / sendv in progress: id, len, hash of the request; set while the library call runs */
 static int snd_active, snd_id, snd_len, snd_stalled, snd_spins;
+static int stall_hold;                  /* StallHold <n>: a blocked send sees n refusals before the server gets to run */
 static uint32_t snd_hash;
 
 /* ------------------------------------------------------------------ messages */
@@ -304,7 +307,8 @@ ssize_t send(int fd, const void *buf, size_t n, int flags)
 			snd_stalled = 1;
 			vt_ev("CStall"); vt_lb(); vt_i(snd_id); vt_i(snd_len); vt_i(snd_hash); vt_le(); vt_res(); vt_obs_end();
 		}
-		if (++snd_spins > 40) { errno = EAGAIN; return -1; }     /* no progress: the watchdog ends the run ("Hang") */
+		if (++snd_spins > stall_hold + 40) { errno = EAGAIN; return -1; }     /* no progress: the watchdog ends the run ("Hang") */
+		if (snd_spins <= stall_hold) { errno = EAGAIN; return -1; }             /* the server is busy for a while longer */
 		long before = ndlv_req;
 		do_dispatch(0, 0);
 		if (ndlv_req == before && (snd_spins % 3) == 2 && svc) {
@@ -340,7 +344,8 @@ static void exec_op(struct vt_line *L)
 	long long a1 = vt_argi(L, 1);
 	alarm(10);
 	if (!strcmp(op, "Connect")) { do_connect(L->tok[1], (int)vt_argi(L, 2)); return; }
-	if (!strcmp(op, "Reset")) { do_reset(); vt_simple("Reset"); return; }
+	if (!strcmp(op, "Reset")) { do_reset(); stall_hold = 0; vt_simple("Reset"); return; }
+	if (!strcmp(op, "StallHold")) { stall_hold = (int)a1 < 0 ? 0 : (int)a1 > 2000 ? 2000 : (int)a1; return; }
 	if (!cli || !conn) { vt_ev("Skip"); vt_res(); vt_obs_end(); return; }
 	/* the client is inside a blocked send: it makes no other call meanwhile */
 	if (snd_active && op[0] == 'C') { vt_ev("Skip"); vt_res(); vt_obs_end(); return; }
